@@ -61,8 +61,11 @@ def check_map_case(rep, case, traces, counters):
         # text -> read -> write -> read
         s = io.StringIO()
         _, why = _refusal(m.writeAscii, s)
-        if why:  # writing what was just read is refused with an error: allowed by the statement, counted
+        if why:  # writing what was just read is refused with an error: allowed by the statement, counted ...
             counters["rewrite_refused"] += 1
+            if case["complete"]:  # ... but not for the complete map of a geometry: then nothing would be "supported"
+                rep.violation("ascii:refuses-complete-map:%s" % g, "%s refuses to write the complete map it has just read: %s" % (gb.MAP_CLASS[g], why),
+                              {"direction": "replay", "part": "asciimap", "case": case, "text": text})
             continue
         m2 = gb.read_map(g, s.getvalue())
         got2 = {ij: v for ij, v in m2.items() if v != "-"}
@@ -78,6 +81,9 @@ def check_map_case(rep, case, traces, counters):
     traces.append(ev)
     if text is None:
         counters["refused"] += 1
+        if case["complete"]:
+            rep.violation("ascii:refuses-complete-map:%s" % g, "%s.gridContentsToAscii refuses the complete map: %s" % (gb.MAP_CLASS[g], why),
+                          {"direction": "replay", "part": "asciimap", "case": case})
     # ---- the grid blueprint around the map ------------------------------------------------------------------
     for d in case["gc"]:
         geom, dom = d["geom"], d["dom"]
@@ -94,9 +100,11 @@ def check_map_case(rep, case, traces, counters):
             continue
         # read -> saveToStream -> read
         saved, why = _refusal(gb.save_grids, grids)
-        if saved is None:
-            rep.violation("grid:save-raises:%s:%s" % (geom, dom), "saveToStream raised on a grid it had read: %s" % why,
-                          {"direction": "replay", "part": "gridmap", "case": case, "yaml": y})
+        if saved is None:  # a refusal with an error (allowed, counted) -- except for the complete map of the geometry
+            counters["save_refused"] += 1
+            if case["complete"]:
+                rep.violation("grid:refuses-complete-map:%s:%s" % (geom, dom), "saveToStream raised on the complete map it had read: %s" % why,
+                              {"direction": "replay", "part": "gridmap", "case": case, "yaml": y})
             continue
         lines = gb.saved_map_lines(saved, "core")
         traces.append({"id": "s%d" % len(traces), "k": "save", "geom": geom, "dom": dom, "cells": d["cells"], "refused": lines is None,
@@ -110,9 +118,19 @@ def check_map_case(rep, case, traces, counters):
                 {"direction": "replay", "part": "gridmap", "case": case, "yaml": y, "saved": saved, "expected": gb.cells_seq(wantg), "observed": gb.cells_seq(got2)})
 
 
+def _verdict_of_tlc(rep, res, spec, actions):
+    if res.violation:
+        rep.violation("tlc:" + res.violation["name"], "TLC: %s violated in %s" % (res.violation["name"], spec),
+                      {"direction": "tlc", "trace": res.violation["trace"][:20000]})
+    never = [a for a in actions if res.coverage.get(a, (0, 0))[1] == 0]
+    if never:
+        raise tlc.MachineryError("vacuous: actions never taken in %s: %s" % (spec, never))
+
+
 def run_asciimap(rep, tier, seed):
     suffix = "_thorough" if tier == "thorough" else ""
-    if not _SELFTEST:
+    # quick: the emission configuration carries every invariant and is the exhaustive run; thorough adds a larger one
+    if not _SELFTEST and tier == "thorough":
         res = tlc.run("AsciiMap_mc", "AsciiMap_mc%s.cfg" % suffix, MODDIR, want_prints=False, timeout=1500)
         rep.add_tlc("exhaustive:AsciiMap_mc%s.cfg" % suffix, res)
         if res.violation:
@@ -121,13 +139,14 @@ def run_asciimap(rep, tier, seed):
         never = [a for a in ("PutAny", "PunchAny") if res.coverage.get(a, (0, 0))[1] == 0]
         if never:
             raise tlc.MachineryError("vacuous: actions never taken in AsciiMap_mc: %s" % never)
-    eres = _tlc_cached("AsciiMap_mc", "AsciiMap_emit%s.cfg" % suffix, workers=1, coverage=False, timeout=1500)
+    eres = _tlc_cached("AsciiMap_mc", "AsciiMap_emit%s.cfg" % suffix, workers=1, coverage=True, timeout=1500)
     rep.add_tlc("cases:AsciiMap_emit%s.cfg" % suffix, eres)
+    _verdict_of_tlc(rep, eres, "AsciiMap", ("PutAny", "PunchAny"))
     cases = [p for p in eres.prints if isinstance(p, dict) and "tp" in p]
     if not cases:
         raise tlc.MachineryError("AsciiMap emission produced no cases")
     traces = []
-    counters = {"read": 0, "write": 0, "refused": 0, "grid": 0, "rewrite_refused": 0}
+    counters = {"read": 0, "write": 0, "refused": 0, "grid": 0, "rewrite_refused": 0, "save_refused": 0}
     for case in cases:
         check_map_case(rep, case, traces, counters)
     rep.add_replay("lattice-map-cases", len(cases), len(cases),
@@ -136,12 +155,215 @@ def run_asciimap(rep, tier, seed):
     rep.extra["asciimap"] = counters
     rep.sample({"kind": "lattice-map", "g": cases[len(cases) // 2]["g"], "text": cases[len(cases) // 2]["tp"], "denotes": cases[len(cases) // 2]["S"]})
     # code -> spec: the real writers' output, validated by TLC
-    slim = [{k: v for k, v in t.items() if k not in ("why", "yaml", "saved")} for t in traces]
-    bad, stats = tracecheck.validate("AsciiMap_trace", "AsciiMap_trace.cfg", MODDIR, slim, timeout=1500)
+    stats = _validate_writer_records(rep, traces)
     rep.add_tlc("trace-validation:writers", stats["tlc"])
     rep.add_traces("writer-outputs", len(traces), len(traces),
                    "one record per call of a real writer (gridContentsToAscii+writeAscii on bare contents; saveToStream on a grid design): "
                    "TLC accepts it iff the call refused or the produced text denotes exactly the given contents")
+    w = [t for t in traces if t["k"] == "write" and not t["refused"]]
+    if w:
+        rep.sample({"kind": "writer-record", "record": {k: w[0][k] for k in ("k", "g", "cells", "lines")}})
+
+
+# ------------------------------------------------------------------------------------------------------------
+# part 2: blueprint documents
+# ------------------------------------------------------------------------------------------------------------
+RTOL = 1e-9  # compositions and dimensions are a handful of double operations away from the input numbers
+FAMILIES = ("links", "comp", "stack", "pins", "core")
+# every edit of Blueprint.tla must occur in the emitted documents (non-vacuity; TLC's -coverage is not usable on this
+# module: its cost model inlines the nested operators and does not finish)
+EDITS = ("SetLink", "SetNum", "DropComp", "SwapComps", "RenameComp", "SetShape", "SetTemps", "SetIsotopics", "SetMod", "ShortMod",
+         "DupIsotopics", "SwapBlocks", "SwapList", "Shorten", "Lengthen", "Respecify", "RenameAsm", "RenameBlock", "SetHeight",
+         "PlaceStack", "PlacePin", "PinMode", "PinMult", "PinIds", "PinGridName", "Place", "Unplace", "DupGrid", "ListTwice")
+
+
+def _ratmap(pairs):
+    return {n: gb.fl(v) for n, v in pairs}
+
+
+def normalise_expected_comp(c):
+    """JSON shape only: TLC prints empty functions as [], rationals as [n, d], sets in its own order."""
+    c = dict(c)
+    c["dims"] = {k: float(v) for k, v in gb._obj(c["dims"]).items()}
+    c["links"] = sorted([d, t[0], t[1]] for d, t in gb._obj(c["links"]).items())
+    c["ti"], c["th"] = float(c["ti"]), float(c["th"])
+    if "mult" in c:
+        c["mult"] = float(c["mult"])
+    comp = {}
+    for k, v in c["comp"].items():
+        if k in ("nd", "md", "nf", "mf"):
+            comp[k] = _ratmap(v)
+            comp["nuclides"] = sorted(comp[k])
+        elif k in ("rho", "enr", "zr"):
+            comp[k] = gb.fl(v)
+    c["comp"] = comp
+    return c
+
+
+def normalise_expected_asm(a):
+    a = dict(a)
+    a["flags"] = sorted(a["flags"])
+    blocks = []
+    for k, b in enumerate(a["blocks"]):
+        b = dict(b)
+        b["flags"] = sorted(b["flags"])
+        for f in ("height", "zbot", "ztop"):
+            b[f] = float(b[f])
+        b["k"] = k
+        b["ncomps"] = len(b["comps"])
+        b["comps"] = {c["name"]: normalise_expected_comp(c) for c in b["comps"]}
+        blocks.append(b)
+    a["blocks"] = blocks
+    return a
+
+
+def compare_reactor(exp, proj):
+    """first difference between Expected(doc) and the projection of the real reactor, as (where, text); None if none."""
+    want_cells = {"%d,%d" % (i, j): s for i, j, s in exp["core"]}
+    if set(want_cells) != set(proj["asm"]):
+        return "core.cells", "cells named by the core map %s, cells holding an assembly %s" % (sorted(want_cells), sorted(proj["asm"]))
+    for cell, s in sorted(want_cells.items()):
+        here = proj["asm"][cell]
+        if len(here) != 1:
+            return "core.cells", "%d assemblies at cell %s" % (len(here), cell)
+        d = rp.diff(normalise_expected_asm(exp["asm"][s]), here[0], rtol=RTOL)
+        if d:
+            return "asm" + d.split(":")[0], "at cell %s (specifier %s) %s" % (cell, s, d)
+    d = rp.diff([float(z) for z in exp["mesh"]], proj["mesh"])
+    if d:
+        return "core.mesh", d
+    n = exp["nasm"]
+    book = proj["book"]
+    want = {"children": n, "byName": n, "byLocator": n, "blocksByName": book["nblocks"], "parents": True, "namesUnique": True}
+    d = rp.diff(want, book)
+    if d:
+        return "core.book" + d.split(":")[0], d
+    return None
+
+
+def _strip_where(w):
+    import re
+
+    return re.sub(r"\[\d+\]", "", w)
+
+
+def check_document(rep, p, counters, twice):
+    doc, verdict, fam = p["doc"], p["verdict"], p["fam"]
+    text = gb.render(doc)
+    payload = {"direction": "replay", "part": "blueprint", "p": p, "yaml": text}
+    try:
+        r = gb.build_reactor(text)
+        err = None
+    except Exception as ex:  # noqa: BLE001  a refusal; whether it is the right outcome is decided below
+        r, err = None, "%s: %s" % (type(ex).__name__, str(ex)[:200].replace("\n", " "))
+    if verdict != "ok":
+        counters["refusals"] += 1
+        if r is not None:
+            why = p.get("why") or p["act"]["n"]
+            rep.violation("refuse:%s:%s" % (verdict, why),
+                          "an inconsistent blueprint (%s: %s; last edit %s) was not refused: a reactor with %d assemblies was built" % (
+                              verdict, why, json.dumps(p["act"]), len(r.core)), dict(payload, expected="refused with an error", observed="built"))
+        return
+    counters["built"] += 1
+    if r is None:
+        rep.violation("build:%s:raises:%s" % (fam, err.split(":")[0]), "a well-formed blueprint (%s family, last edit %s) was refused: %s" % (
+            fam, json.dumps(p["act"]), err), dict(payload, expected=p["exp"], observed=err))
+        return
+    proj = gb.project_reactor(r)
+    d = compare_reactor(p["exp"], proj)
+    if d:
+        rep.violation("build:%s:%s" % (fam, _strip_where(d[0])), "the reactor built from a %s-family blueprint (last edit %s) is not the one described: %s" % (
+            fam, json.dumps(p["act"]), d[1]), dict(payload, expected=p["exp"], observed=proj, first_difference=d[1]))
+        return
+    if twice:
+        counters["twice"] += 1
+        proj2 = gb.project_reactor(gb.build_reactor(text))
+        if json.dumps(proj, sort_keys=True) != json.dumps(proj2, sort_keys=True):
+            rep.violation("determinism:%s" % fam, "building the same blueprint text twice gives different reactors: %s" % rp.diff(proj, proj2, rtol=0, atol=0),
+                          dict(payload, first=proj, second=proj2))
+
+
+CAP = {"quick": 300, "thorough": 6000}  # documents built per family (all of them when fewer are emitted)
+
+
+def sample_documents(docs, cap, rng):
+    """at most `cap` documents per family, spread over (last edit, verdict) classes; seeded, order-independent of TLC."""
+    out = []
+    for fam in FAMILIES:
+        mine = [p for p in docs if p["fam"] == fam]
+        if len(mine) <= cap:
+            out += mine
+            continue
+        classes = {}
+        for p in sorted(mine, key=lambda p: rp.skey(p["doc"])):
+            classes.setdefault((p["act"]["n"], p["verdict"]), []).append(p)
+        for v in classes.values():
+            rng.shuffle(v)
+        keys = sorted(classes)
+        picked = []
+        while len(picked) < cap:
+            for k in keys:
+                if classes[k] and len(picked) < cap:
+                    picked.append(classes[k].pop())
+        out += picked
+    return out
+
+
+def run_blueprints(rep, tier, seed):
+    thorough = tier == "thorough"
+    suffix = "_thorough" if thorough else ""
+    if not _SELFTEST and thorough:
+        res = tlc.run("Blueprint_mc", "Blueprint_mc%s.cfg" % suffix, MODDIR, want_prints=False, coverage=False, timeout=3000)
+        rep.add_tlc("exhaustive:Blueprint_mc%s.cfg" % suffix, res)
+        if res.violation:
+            rep.violation("tlc:" + res.violation["name"], "TLC: %s violated in Blueprint" % res.violation["name"],
+                          {"direction": "tlc", "trace": res.violation["trace"][:20000]})
+    eres = _tlc_cached("Blueprint_mc", "Blueprint_emit%s.cfg" % suffix, workers=1, coverage=False, timeout=3000)
+    rep.add_tlc("documents:Blueprint_emit%s.cfg" % suffix, eres)
+    _verdict_of_tlc(rep, eres, "Blueprint", ())
+    docs = [p for p in eres.prints if isinstance(p, dict) and "doc" in p]
+    acts = {p["act"]["n"] for p in docs}
+    never = [e for e in EDITS if e not in acts]
+    if never:
+        raise tlc.MachineryError("vacuous: edits never taken in Blueprint emission: %s" % never)
+    verdicts = {}
+    for p in docs:
+        verdicts[p["verdict"]] = verdicts.get(p["verdict"], 0) + 1
+    for v in ("ok", "DuplicateName", "UnequalLists", "UnknownSpecifier", "Overlap"):
+        if not verdicts.get(v):
+            raise tlc.MachineryError("vacuous: no emitted document has verdict %s" % v)
+    counters = {"built": 0, "refusals": 0, "twice": 0}
+    every = 2 if thorough else 5
+    chosen = sample_documents(docs, 120 if _SELFTEST else CAP[tier], random.Random(seed))
+    for k, p in enumerate(chosen):
+        check_document(rep, p, counters, twice=(k % every == 0))
+    counters["emitted"] = len(docs)
+    docs = chosen
+    rep.add_replay("blueprint-documents", len(docs), len(docs),
+                   "every enumerated abstract document is rendered to YAML, loaded with Blueprints.load and built with reactors.factory; "
+                   "well-formed ones are compared with Expected(doc) cell by cell, block by block, component by component, "
+                   "inconsistent ones must raise; non-trivial = all")
+    rep.extra["blueprints"] = dict(counters, verdicts=verdicts, families={f: sum(1 for p in docs if p["fam"] == f) for f in FAMILIES})
+    oks = [p for p in docs if p["verdict"] == "ok" and p["fam"] == "links" and p["act"]["n"] == "SetLink"]
+    if oks:
+        rep.sample({"kind": "document", "fam": "links", "last_edit": oks[0]["act"], "yaml": gb.render(oks[0]["doc"])[:1500],
+                    "expected_clad": [c for c in oks[0]["exp"]["asm"]["A"]["blocks"][0]["comps"] if c["name"] == oks[0]["act"]["c"]]})
+
+
+# ------------------------------------------------------------------------------------------------------------
+def run(rep, tier, seed):
+    armi_ready()
+    tlc.sany("AsciiMap_mc", MODDIR)
+    tlc.sany("AsciiMap_trace", MODDIR)
+    rep.exhaustive = True
+    run_asciimap(rep, tier, seed)
+    tlc.sany("Blueprint_mc", MODDIR)
+    run_blueprints(rep, tier, seed)
+
+
+def _validate_writer_records(rep, traces):
+    slim = [{k: v for k, v in t.items() if k not in ("why", "yaml", "saved")} for t in traces]
+    bad, stats = tracecheck.validate("AsciiMap_trace", "AsciiMap_trace.cfg", MODDIR, slim, timeout=1500)
     byid = {t["id"]: t for t in traces}
     for b in bad:
         t = byid.get(b["trace"]["id"], b["trace"])
@@ -154,25 +376,237 @@ def run_asciimap(rep, tier, seed):
             what = "saveToStream wrote the grid (%s, %s) holding %s as the map %r, which does not denote it" % (
                 t.get("geom"), t.get("dom"), t.get("cells"), gb.lines_to_text(t.get("lines", []), indent=False))
         rep.violation(key, what + " " + json.dumps(b.get("mismatch", ""))[:400], {"direction": "trace", "part": "asciimap", "record": t})
-    w = [t for t in traces if t["k"] == "write" and not t["refused"]]
-    if w:
-        rep.sample({"kind": "writer-record", "record": {k: w[0][k] for k in ("k", "g", "cells", "lines")}})
-
-
-# ------------------------------------------------------------------------------------------------------------
-def run(rep, tier, seed):
-    armi_ready()
-    tlc.sany("AsciiMap_mc", MODDIR)
-    tlc.sany("AsciiMap_trace", MODDIR)
-    rep.exhaustive = True
-    run_asciimap(rep, tier, seed)
+    return stats
 
 
 def replay(payload):
+    """re-execute one reported violation against the real code (and TLC, for writer records)."""
+    from harness.report import Report
+
     armi_ready()
-    print(json.dumps(payload, indent=1, default=str)[:4000])
-    return 0
+    rep = Report("C18", "replay", 0)
+    part = payload.get("part")
+    if part == "blueprint":
+        print(payload["yaml"])
+        check_document(rep, payload["p"], {"built": 0, "refusals": 0, "twice": 0}, twice=True)
+    elif part in ("asciimap", "gridmap") and "case" in payload:
+        traces = []
+        check_map_case(rep, payload["case"], traces, {"read": 0, "write": 0, "refused": 0, "grid": 0, "rewrite_refused": 0, "save_refused": 0})
+        _validate_writer_records(rep, traces)
+    elif "record" in payload:
+        t = payload["record"]
+        if t["k"] == "write":
+            text, why = _refusal(gb.write_map, t["g"], gb.cells_dict(t["cells"]))
+            rec = dict(t, id="w0", refused=text is None, lines=[] if text is None else gb.text_to_lines(text))
+            print("contents %s\nwritten as:\n%s" % (t["cells"], text if text is not None else "refused: " + why))
+        else:
+            grids = gb.load_grids(t["yaml"])
+            grids["core"].construct()
+            saved = gb.save_grids(grids)
+            lines = gb.saved_map_lines(saved, "core")
+            rec = dict(t, id="s0", refused=lines is None, lines=lines or [], saved=saved)
+            print("grid read from:\n%s\nsaved as:\n%s" % (t["yaml"], saved))
+        _validate_writer_records(rep, [rec])
+    else:
+        print(json.dumps(payload, indent=1, default=str)[:4000])
+        return 0
+    for v in rep.violations:
+        print("still diverges: %s\n  %s" % (v["key"], v["what"][:1500]))
+    if not rep.violations:
+        print("no divergence: the case conforms")
+    return 1 if rep.violations else 0
 
 
 def selftest():
-    return 0
+    """In-process mutants of the anchored code; each must be detected by a check that is clean on the unmutated tree
+    (violations the unmutated tree already shows are subtracted)."""
+    global _SELFTEST
+    import time
+
+    from harness.report import Report
+    from harness.selftest import patched as P
+
+    armi_ready()
+    gb.quiet()
+    from armi.reactor import components
+    from armi.reactor.blueprints import assemblyBlueprint, blockBlueprint, componentBlueprint, gridBlueprint, isotopicOptions, reactorBlueprint
+    from armi.reactor.components.component import COMPONENT_LINK_REGEX, Component, _DimensionLink
+    from armi.utils import asciimaps
+
+    _SELFTEST = True
+
+    def detect():
+        rep = Report("C18", "quick", 0)
+        run(rep, "quick", 0)
+        return [v["key"] for v in rep.violations]
+
+    # -- component construction, link resolution -----------------------------------------------------------
+    def links_first_component(self, comps):
+        for dimName in self.DIMENSION_NAMES:
+            value = self.p[dimName]
+            if isinstance(value, str):
+                m = COMPONENT_LINK_REGEX.search(value)
+                if m:
+                    first = [c for c in comps.values() if c is not self][0]      # not the named one
+                    self.p[dimName] = _DimensionLink((first if m.group(1) not in comps else comps[m.group(1)] if dimName != "id" else first, m.group(2)))
+
+    orig_conform = componentBlueprint.ComponentBlueprint._conformKwargs
+
+    def conform_swaps_temperatures(self, blueprint, matMods):
+        kw = orig_conform(self, blueprint, matMods)
+        if "Tinput" in kw and "Thot" in kw and kw.get("mult") and kw["mult"] != 1:
+            kw["Tinput"], kw["Thot"] = kw["Thot"], kw["Tinput"]
+        return kw
+
+    def conform_ignores_mult_link(self, blueprint, matMods):
+        kw = orig_conform(self, blueprint, matMods)
+        if isinstance(kw.get("mult"), str):
+            kw["mult"] = 1
+        return kw
+
+    def no_negative_area_check(self, area, cold):
+        return None
+
+    # -- assembly stacking ----------------------------------------------------------------------------------------
+    orig_create = assemblyBlueprint.AssemblyBlueprint._createBlock
+
+    def create_block_heights_reversed(self, cs, blueprint, bDesign, axialIndex):
+        b = orig_create(self, cs, blueprint, bDesign, axialIndex)
+        h = self.height[len(self.blocks) - 1 - axialIndex]
+        b.p.height = h
+        b.p.heightBOL = h
+        return b
+
+    def create_block_xs_shifted(self, cs, blueprint, bDesign, axialIndex):
+        b = orig_create(self, cs, blueprint, bDesign, axialIndex)
+        b.p.xsType = self.xsTypes[(axialIndex + 1) % len(self.xsTypes)]
+        return b
+
+    def param_consistency_off(self):
+        return None
+
+    def mesh_points_plus_one(meshPoints, factor):
+        return int(meshPoints) * factor + 1
+
+    def filter_block_wins(materialInput, componentDesign):
+        out, keys = {}, set()
+        for component, mod in materialInput.items():
+            if component == componentDesign.name:
+                for k, v in mod.items():
+                    keys.add(k)
+                    out[k] = v
+        for k, v in materialInput.get("byBlock", {}).items():      # by-block applied last: it wins
+            out[k] = v
+        return out, keys
+
+    # -- lattice maps ---------------------------------------------------------------------------------------------
+    orig_third_base = asciimaps.AsciiMapHexThirdFlatsUp._getIJBaseByAsciiLine
+
+    def third_base_wrong_ray(self, n):
+        i, j = orig_third_base(self, n)
+        return (i + 2, j - 1) if (n - 1) % 3 == 2 and n > 3 else (i, j)
+
+    def tips_base_shifted(self, n):
+        shift = self._ijMax
+        return -shift * 2 + n + 1, shift - n
+
+    def cart_rows_top_down(self):
+        self.asciiLabelByIndices = {}
+        for li, line in enumerate(self.asciiLines):
+            for ci, label in enumerate(line):
+                self.asciiLabelByIndices[ci, li] = label
+
+    orig_read_lattice = gridBlueprint.GridBlueprint._readGridContentsLattice
+
+    def lattice_no_centring(self):
+        orig_read_lattice(self)
+        if self.geom == "cartesian" and "full" in self.symmetry:
+            xs = [k[1] for k in self.gridContents]
+            self.gridContents = {(i, j - min(xs)): v for (i, j), v in self.gridContents.items()}
+
+    def locators_first_id_only(self, spatialGrid, latticeIDs):
+        if latticeIDs is None or self.gridContents is None:
+            return []
+        ids = [str(i) for i in latticeIDs][:1]
+        return [spatialGrid[i, j, 0] for (i, j), spec in self.gridContents.items() if spec in ids]
+
+    # -- core population ----------------------------------------------------------------------------------------
+    def load_composites_transposed(self, cs, container, gridContents, bp):
+        for (i, j), spec in gridContents.items():
+            container.add(bp.constructAssem(cs, specifier=spec), container.spatialGrid[j, i, 0])
+
+    def load_composites_skips_unknown(self, cs, container, gridContents, bp):
+        for (i, j), spec in gridContents.items():
+            try:
+                a = bp.constructAssem(cs, specifier=spec)
+            except KeyError:
+                continue
+            container.add(a, container.spatialGrid[i, j, 0])
+
+    # -- custom isotopics -----------------------------------------------------------------------------------------
+    orig_init_mf = isotopicOptions.CustomIsotopic._initializeMassFracs
+
+    def number_fractions_as_mass_fractions(self):
+        if self.inputFormat == "number fractions":
+            self.massFracs = dict(self)
+            return
+        orig_init_mf(self)
+
+    orig_apply = isotopicOptions.CustomIsotopic.apply
+
+    def apply_ignores_density(self, material):
+        material.massFrac = dict(self.massFracs)
+
+    counter = [0]
+    orig_construct = componentBlueprint.ComponentBlueprint.construct
+
+    def construct_depends_on_history(self, blueprint, matMods, hot):
+        c = orig_construct(self, blueprint, matMods, hot)
+        counter[0] += 1
+        if counter[0] % 7 == 0 and isinstance(c, Component) and c.p.mult == 1:
+            c.temperatureInC = c.temperatureInC + 1.0
+        return c
+
+    CB, AB, BB = componentBlueprint.ComponentBlueprint, assemblyBlueprint.AssemblyBlueprint, blockBlueprint.BlockBlueprint
+    mutants = [
+        ("dimension links: `id` links resolve to another component", lambda: P(Component, "resolveLinkedDims", links_first_component)),
+        ("Tinput / Thot swapped for pins", lambda: P(CB, "_conformKwargs", conform_swaps_temperatures)),
+        ("a linked mult is ignored (mult 1)", lambda: P(CB, "_conformKwargs", conform_ignores_mult_link)),
+        ("negative-area (overlap) check disabled", lambda: P(Component, "_checkNegativeArea", no_negative_area_check)),
+        ("block heights applied in reversed order", lambda: P(AB, "_createBlock", create_block_heights_reversed)),
+        ("xs type list shifted by one block", lambda: P(AB, "_createBlock", create_block_xs_shifted)),
+        ("list-length consistency check disabled", lambda: P(AB, "_checkParamConsistency", param_consistency_off)),
+        ("axial mesh points off by one", lambda: P(blockBlueprint, "_setBlueprintNumberOfAxialMeshes", mesh_points_plus_one)),
+        ("by-block modification overrides by-component", lambda: P(BB, "_filterMaterialInput", staticmethod(filter_block_wins))),
+        ("third-core map: wrong row base on one ray", lambda: P(asciimaps.AsciiMapHexThirdFlatsUp, "_getIJBaseByAsciiLine", third_base_wrong_ray)),
+        ("corners-up map: row base shifted one column", lambda: P(asciimaps.AsciiMapHexFullTipsUp, "_getIJBaseByAsciiLine", tips_base_shifted)),
+        ("Cartesian map read top-down", lambda: P(asciimaps.AsciiMapCartesian, "_asciiLinesToIndices", cart_rows_top_down)),
+        ("full Cartesian map not centred in j", lambda: P(gridBlueprint.GridBlueprint, "_readGridContentsLattice", lattice_no_centring)),
+        ("pin lattice: only the first latticeID is used", lambda: P(gridBlueprint.GridBlueprint, "getLocators", locators_first_id_only)),
+        ("core map loaded transposed (j, i)", lambda: P(reactorBlueprint.SystemBlueprint, "_loadComposites", load_composites_transposed)),
+        ("unknown specifiers in the core map skipped silently", lambda: P(reactorBlueprint.SystemBlueprint, "_loadComposites", load_composites_skips_unknown)),
+        ("number fractions taken as mass fractions", lambda: P(isotopicOptions.CustomIsotopic, "_initializeMassFracs", number_fractions_as_mass_fractions)),
+        ("custom isotopics density ignored", lambda: P(isotopicOptions.CustomIsotopic, "apply", apply_ignores_density)),
+        ("construction depends on how many components were built before", lambda: P(CB, "construct", construct_depends_on_history)),
+    ]
+    try:
+        t0 = time.time()
+        base = detect()
+        print("baseline (unmutated): %s" % ("clean" if not base else "%d findings %s" % (len(base), base)))
+        missed = 0
+        for label, cm in mutants:
+            counter[0] = 0
+            try:
+                with cm():
+                    found = [k for k in detect() if k not in base]
+            except Exception as ex:  # noqa: BLE001
+                found = ["harness-exception:%s:%s" % (type(ex).__name__, str(ex)[:80])]
+            if found:
+                print("caught  %-66s %s" % (label, found[:3]))
+            else:
+                missed += 1
+                print("MISSED  %-66s" % label)
+        print("selftest: %d mutants, %d missed, %.1fs" % (len(mutants), missed, time.time() - t0))
+        return 0 if not missed else 1
+    finally:
+        _SELFTEST = False
